@@ -337,7 +337,55 @@ def metadata_edits(cases):
   return out
 
 
+def loop_structure_probe():
+  """loop bodies that change which object sits where (re-bind an attribute to a fresh Variable, swap two Variables): nnx may refuse them, but when it
+  accepts them the caller's objects must end up as after the unrolled Python loop -- values AND which object each attribute holds"""
+  class M(nnx.Module):
+    def __init__(self):
+      self.w = nnx.Param(jnp.asarray(1, dtype=jnp.int64))
+      self.b = nnx.Param(jnp.asarray(10, dtype=jnp.int64))
+
+  def rebind(m):
+    m.w = nnx.Param(m.w.value + 7)
+
+  def swap(m):
+    m.w, m.b = m.b, m.w
+  out = []
+  for name, edit in (('rebind', rebind), ('swap', swap)):
+    for form in ('fori', 'while'):
+      for k in (1, 2, 3):
+        def view(m, w0, b0):
+          ident = lambda v: 'w0' if v is w0 else 'b0' if v is b0 else 'fresh'
+          return {'w': int(m.w.value), 'b': int(m.b.value), 'w_is': ident(m.w), 'b_is': ident(m.b), 'w0': int(w0.value), 'b0': int(b0.value)}
+        e = M()
+        ew, eb = e.w, e.b
+        for _ in range(k):
+          edit(e)
+        want = view(e, ew, eb)
+        m = M()
+        w0, b0 = m.w, m.b
+        try:
+          if form == 'fori':
+            def body(i, m):
+              edit(m)
+              return m
+            nnx.fori_loop(0, k, body, m)
+          else:
+            def wbody(c):
+              i, m = c
+              edit(m)
+              return i + 1, m
+            nnx.while_loop(lambda c: c[0] < k, wbody, (jnp.asarray(0), m))
+          got = view(m, w0, b0)
+        except Exception as ex:  # pylint: disable=broad-except
+          got = {'refused': type(ex).__name__}
+        out.append({'edit': name, 'form': form, 'k': k, 'got': got, 'eager': want})
+  return out
+
+
 def main(payload):
+  if payload.get('loop_structure'):
+    return {'loop_structure': loop_structure_probe()}
   if 'metadata_edits' in payload:
     return {'metadata_edits': metadata_edits(payload['metadata_edits'])}
   if payload.get('probe'):
